@@ -182,6 +182,42 @@ func glueSweep(o *Out, r *Rng, methods, biases []string, n int) {
 		decideJSON(q.JSON())
 	}
 	o.count("handler-glue:sweep=" + itoa(n))
+	if len(biases) > 0 {
+		ownBiasAfterDisabledEntry(o, r, methods, biases[0], n/4)
+	}
+}
+
+// ownBiasAfterDisabledEntry: the property's own bias, alone in the list and with applyProbability omitted (it fires
+// whatever the activation stream gives), must be applied and reported the same way when a DISABLED entry that omits
+// nothing but is switched off stands before or after it: the two responses are compared byte for byte.  (A disabled
+// entry is not looked at beyond its flag — Props.C08.disabled_entries_are_invisible; the entries of the property's
+// own bias here omit the `disabled` key, which is how clients write enabled entries.)
+func ownBiasAfterDisabledEntry(o *Out, r *Rng, methods []string, own string, n int) {
+	done := 0
+	for i := 0; i < n; i++ {
+		q := genRequest(r, ReqOpts{Methods: methods, Biases: []string{own}, MaxBiases: 2, NoProb: true})
+		bl, _ := q.Body["biases"].([]interface{})
+		if len(bl) == 0 {
+			continue
+		}
+		plain := q.JSON()
+		pos := r.Intn(len(bl) + 1)
+		if r.chance(0.6) {
+			pos = 0
+		}
+		dis := J{"name": []string{"criteriaOmission", "fatigue", "preferenceReversal", "anchoring"}[r.Intn(4)], "disabled": true, "props": J{}}
+		with := append(append(append([]interface{}{}, bl[:pos]...), dis), bl[pos:]...)
+		q.Body["biases"] = with
+		varied := q.JSON()
+		q.Body["biases"] = bl
+		st1, out1 := libraryJSON(plain)
+		st2, out2 := libraryJSON(varied)
+		done++
+		m := Meta{Case: i, Stage: "own-bias-after-disabled-entry", Key: string(plain), Input: J{"request": json.RawMessage(plain), "withDisabledEntry": json.RawMessage(varied)}}
+		o.Oracle(m, st1 == st2 && (st1 != 200 || string(out1) == string(out2)),
+			own+" is applied or reported differently when a disabled entry stands in the bias list (position "+itoa(pos)+"): "+truncate(string(out1), 120)+" vs "+truncate(string(out2), 120))
+	}
+	o.count("own-bias-after-disabled-entry=" + itoa(done))
 }
 
 // glueReport: emitted once at the end of a property run
